@@ -63,6 +63,8 @@ CLAIMED.update({
                 ref='DESIGN.md §3 C25', note=NOTE + '; flat memory stub per instance; concurrent stepping under the race detector is outside what this technique can encode'),
     'C26': dict(text='package gameboy (pure-Go display/speakers stubs): the real 17556-iteration runFrame executed with a concrete count on a quiet machine with the divider phase symbolic: PC, divider, RTC sub-second count, APU clock and PPU frame index each advanced by exactly 17556 cycles, VBlank requested, timer interrupt iff overflow, display answer returned; an order probe program (LCD off/on and DIV clear at known cycles) pins "CPU first, then video ... then timer" within an iteration; Run with cancellation at the k-th poll and close request after the j-th frame (k, j symbolic 0..3): frames run, polls made, each attached output released exactly once',
                 ref='DESIGN.md §3 C26', note=NOTE + '; renderPixel is a no-op inside the frame loop; in the Run harness runFrame is abstracted to its return value'),
+    'C24': dict(text='determinism as 2-safety by self-composition of the real code: two copies of the machine get the same symbolic state and operation, environment primitives (clock, random numbers, process ids, environment variables) return a fresh unconstrained value per call, and every observable must agree: system level (write to every address class/register, a machine cycle of each component, a button event; observables: every readable address, component clocks, serial transcript, cartridge RAM, frame buffer), cpu level (one instruction per opcode on two machines), frame level (two emulators run one whole frame of a small program)',
+                ref='DESIGN.md §3 C24', note=NOTE + '; separate OS processes, map iteration order, goroutines and multi-way select are outside what is modelled (code reaching them makes the check inconclusive)'),
 })
 
 NA_REASON = {
